@@ -47,8 +47,11 @@ def fmt_num(v):
 class Printer:
     """minimal parentheses; with rng and p_redundant>0 adds redundant ones."""
 
-    def __init__(self, rng=None, p_redundant=0.0, numfmt=None):
+    def __init__(self, rng=None, p_redundant=0.0, numfmt=None, p_bare_sign=0.0):
         self.rng, self.p, self.numfmt = rng, p_redundant, numfmt
+        # pymoca's grammar also accepts a sign directly after a binary operator (a / -b * c), the sign binding tighter
+        # than * and / and looser than ^; with p_bare_sign > 0 such operands are sometimes written without parentheses
+        self.p_bare_sign = p_bare_sign
 
     def wrap(self, s):
         return "(" + s + ")"
@@ -118,12 +121,15 @@ class Printer:
             if a[0] in ("neg", "pos") and lv > 5 and not left.startswith("("):
                 left = self.wrap(left)
             right = self.p_(b, lv, strict=True)
+            if (b[0] in ("neg", "pos") and level(b[1]) >= 7 and lv in (5, 6) and self.rng is not None and self.p_bare_sign > 0
+                    and self.rng.random() < self.p_bare_sign):
+                right = self.raw(b)
             return left + " " + op + " " + right
         raise ValueError(t)
 
 
-def to_text(e, rng=None, p_redundant=0.0):
-    return Printer(rng, p_redundant).p_(e, 0)
+def to_text(e, rng=None, p_redundant=0.0, p_bare_sign=0.0):
+    return Printer(rng, p_redundant, p_bare_sign=p_bare_sign).p_(e, 0)
 
 
 # ---------------------------------------------------------------------------------------------
